@@ -80,7 +80,7 @@ impl Prop for C17 {
         400
     }
     fn cases(&self, t: Tier) -> usize {
-        t.pick(120_000, 4_000_000)
+        t.pick(500_000, 4_000_000)
     }
     fn generate(&self, t: &mut Tape) -> Case {
         let spelling = super::c02::take_spelling(t, 30);
